@@ -274,6 +274,29 @@ def rule_r2(chk, p, t):
             r.error(fn.qualname, "no angular configuration field found")
         else:
             r.ok(fn.qualname, f"{n_ang} angular fields each * DEG2RAD once", fn.loc(), obligations=n_ang)
+    # field completeness: every field the configuration class declares is consumed by fromConfig
+    for q, fn in (("COEStateConfig", fc), ("EQEStateConfig", p.func(f"{ORB}.elements.EquinoctialElements.fromConfig"))):
+        cc = p.cls(f"resonaate.scenario.config.state_config.{q}")
+        declared = [s.target.id for s in cc.node.body if isinstance(s, ast.AnnAssign) and isinstance(s.target, ast.Name) and s.target.id != "type" and not s.target.id.startswith("_")]
+        cname = fn.params[1]
+        read = {n.attr for n in ast.walk(fn.node) if isinstance(n, ast.Attribute) and isinstance(n.value, ast.Name) and n.value.id == cname}
+        # helpers that receive the whole configuration
+        for c in ast.walk(fn.node):
+            if isinstance(c, ast.Call) and any(isinstance(a, ast.Name) and a.id == cname for a in c.args):
+                for tg in t.callees(c, fn):
+                    if hasattr(tg, "node") and getattr(tg, "params", None):
+                        idx = [i for i, a in enumerate(c.args) if isinstance(a, ast.Name) and a.id == cname][0]
+                        prm = tg.params[idx + (1 if tg.kind in ("method", "classmethod") and isinstance(c.func, ast.Attribute) else 0)] if idx + 1 <= len(tg.params) else None
+                        if prm:
+                            read |= {n.attr for n in ast.walk(tg.node) if isinstance(n, ast.Attribute) and isinstance(n.value, ast.Name) and n.value.id == prm}
+        missing = [f for f in declared if f not in read]
+        cons = f"{fn.qualname}:fields"
+        if len(declared) < 6:
+            r.error(cons, f"only {len(declared)} declared fields found on {q} (>= 6 confirmed by hand)")
+        elif missing:
+            r.violation(cons, "ignored-fields:" + ",".join(missing), f"{fn.cls.name}.fromConfig ignores the configuration field(s) {missing} of {q}: the same orbit described through this configuration yields a different initial state (e.g. a retrograde equinoctial set decoded with the direct equations)", fn.loc())
+        else:
+            r.ok(cons, f"all {len(declared)} declared fields of {q} are consumed", fn.loc(), obligations=len(declared))
     # the configuration -> ECI path goes through the element classes
     for q, cls, back in (("COEStateConfig", "ClassicalElements", "toECI"), ("EQEStateConfig", "EquinoctialElements", "toECI")):
         m = p.func(f"resonaate.scenario.config.state_config.{q}.toECI")
@@ -368,17 +391,67 @@ def rule_r3(chk, p, t):
     r.guard("decorators", decs)
 
 
+def rule_r4(chk, p, t):
+    r = chk.rule(
+        "C12.R4",
+        "angles from vectors are domain-safe",
+        6,
+        "in the orbit-element code every arc-cosine of a normalised dot product goes through safeArccos / a clip / "
+        "subtendedAngle(..., safe=True): on the apse line, the node line or the reference axis the cosine rounds to "
+        "1 + 2e-16 and a raw arccos returns NaN for a perfectly valid (perigee, apogee, circular, equatorial) state. "
+        "A raw arccos of one component of a normalised vector is accepted (|x_i| / sqrt(sum x^2) <= 1 in IEEE arithmetic)",
+        "the numerical value of any angle",
+    )
+    mods = [m for q, m in p.modules.items() if q.startswith(ORB)]
+    n = 0
+    sa = p.func("resonaate.physics.maths.subtendedAngle")
+    sa_defaults = dict(zip([a.arg for a in sa.node.args.args][-len(sa.node.args.defaults) :], sa.node.args.defaults)) if sa.node.args.defaults else {}
+    default_safe = isinstance(sa_defaults.get("safe"), ast.Constant) and sa_defaults["safe"].value is True
+    for m in mods:
+        for fi in m.functions.values():
+            defs = single_defs(fi.node)
+            for c in ast.walk(fi.node):
+                if not isinstance(c, ast.Call):
+                    continue
+                cn = call_name(c)
+                cons = f"{fi.qualname}:{cn}@{unparse(c)[:50]}"
+                if cn == "safeArccos":
+                    n += 1
+                    r.ok(cons, "safeArccos", fi.loc(c))
+                elif cn == "subtendedAngle":
+                    n += 1
+                    safe = any(k.arg == "safe" and isinstance(k.value, ast.Constant) and k.value.value is True for k in c.keywords) or (len(c.args) >= 3 and isinstance(c.args[2], ast.Constant) and c.args[2].value is True)
+                    explicit = any(k.arg == "safe" for k in c.keywords) or len(c.args) >= 3
+                    if safe or (default_safe and not explicit):
+                        r.ok(cons, "subtendedAngle(..., safe=True)", fi.loc(c))
+                    else:
+                        r.violation(cons, f"unsafe-arccos:{fi.name}:subtendedAngle", f"`{unparse(c)[:80]}` takes a raw arccos of a normalised dot product (safe defaults to False): for parallel / anti-parallel vectors (true anomaly 0 or pi, ...) the cosine can round to 1 + 2e-16 and the angle is NaN", fi.loc(c))
+                elif cn in ("arccos", "acos"):
+                    n += 1
+                    a = c.args[0] if c.args else None
+                    a = defs.get(a.id, a) if isinstance(a, ast.Name) else a
+                    clipped = isinstance(a, ast.Call) and call_name(a) in ("clip", "safeClip")
+                    unit_comp = isinstance(a, ast.Subscript) and isinstance(a.value, ast.Name) and ("unit" in a.value.id)
+                    if clipped or unit_comp:
+                        r.ok(cons, "clipped" if clipped else "component of a unit vector", fi.loc(c))
+                    else:
+                        r.violation(cons, f"unsafe-arccos:{fi.name}:arccos", f"`{unparse(c)[:80]}`: raw arccos of `{unparse(a)[:50]}` without safeArccos / clip: NaN when the cosine rounds just past +-1", fi.loc(c))
+    if n == 0:
+        r.error("arccos-sites", "no arc-cosine site found in the orbit-element code (7 confirmed by hand)")
+
+
 def run(chk, p, t):
     chk.explanation = (
         "Static decision of a narrow set of structural necessary conditions of C12: (R1) the four places that split "
         "on (inclined, eccentric) agree on the case partition, on which slots are zero and on which slot carries the "
         "defining angle of each singular case (path conditions to each return / assignment); (R2) angular "
         "configuration fields are converted to radians exactly once, non-angular ones never; (R3) every anomaly "
-        "conversion is range-wrapped, circular cases guarded, closed forms as documented. NOT decided: any round trip "
+        "conversion is range-wrapped, circular cases guarded, closed forms as documented; (R4) every arc-cosine of a "
+        "normalised dot product in the element code is domain-safe; configuration fields are all consumed. NOT decided: any round trip "
         "as numbers, Newton convergence of Kepler's equation."
     )
     chk.assumptions += ["isInclined / isEccentric are the single threshold helpers (tolerances in physics/orbits/__init__.py)"]
-    for fn in (rule_r1, rule_r2, rule_r3):
+    for fn in (rule_r1, rule_r2, rule_r3, rule_r4):
         rid = "C12.R" + fn.__name__[-1]
         if not chk.wants(rid):
             continue
